@@ -1,0 +1,19 @@
+//go:build verif
+
+package server
+
+import (
+	"sync/atomic"
+	"time"
+)
+
+// VerifSetShutdownPollInterval sets the interval at which Shutdown polls the number of requests in
+// progress and returns the previous value (verification harness only).
+func VerifSetShutdownPollInterval(d time.Duration) time.Duration {
+	old := shutdownPollInterval
+	shutdownPollInterval = d
+	return old
+}
+
+// VerifHandlerMsgNum reports the number of requests counted as in progress.
+func (s *Server) VerifHandlerMsgNum() int32 { return atomic.LoadInt32(&s.handlerMsgNum) }
